@@ -47,8 +47,8 @@ lemma sum_entry (row : List (ℕ × K)) (n : ℕ) (x : ℕ → K) (h : ∀ e ∈
 
 /-! ### the rows of one block -/
 
-lemma blockRow_rot0 (L : ℕ) (lo hi : K) (q : ℕ) :
-    blockRow L lo hi (7 + 3 * q) =
+lemma blockRow_rot0 (L : ℕ) (lo hi elo : K) (q : ℕ) :
+    blockRow L lo hi elo (7 + 3 * q) =
       [(4, 1 / 2), (wCol L q, -(1 / 2)), (numVars L + 3 * q, -1)] := by
   have h1 : 7 + 3 * q = 3 * q + 7 := by omega
   rw [h1]
@@ -57,8 +57,8 @@ lemma blockRow_rot0 (L : ℕ) (lo hi : K) (q : ℕ) :
   have h3 : 3 * q / 3 = q := by omega
   simp [h2, h3]
 
-lemma blockRow_rot1 (L : ℕ) (lo hi : K) (q : ℕ) :
-    blockRow L lo hi (7 + 3 * q + 1) = yRow L q ++ [(numVars L + 3 * q + 1, -1)] := by
+lemma blockRow_rot1 (L : ℕ) (lo hi elo : K) (q : ℕ) :
+    blockRow L lo hi elo (7 + 3 * q + 1) = yRow L q ++ [(numVars L + 3 * q + 1, -1)] := by
   have h1 : 7 + 3 * q + 1 = (3 * q + 1) + 7 := by omega
   rw [h1]
   simp only [blockRow]
@@ -66,8 +66,8 @@ lemma blockRow_rot1 (L : ℕ) (lo hi : K) (q : ℕ) :
   have h3 : (3 * q + 1) / 3 = q := by omega
   simp [h2, h3]
 
-lemma blockRow_rot2 (L : ℕ) (lo hi : K) (q : ℕ) :
-    blockRow L lo hi (7 + 3 * q + 2) =
+lemma blockRow_rot2 (L : ℕ) (lo hi elo : K) (q : ℕ) :
+    blockRow L lo hi elo (7 + 3 * q + 2) =
       [(4, -(1 / 2)), (wCol L q, -(1 / 2)), (numVars L + 3 * q + 2, 1)] := by
   have h1 : 7 + 3 * q + 2 = (3 * q + 2) + 7 := by omega
   rw [h1]
@@ -94,8 +94,8 @@ lemma row_cases (L r : ℕ) (hr : r < rowCount L) :
   · refine Or.inr ⟨(r - 7) / 3, (r - 7) % 3, ?_, ?_, ?_⟩ <;> unfold rowCount at hr <;> omega
 
 /-- all columns of a block row lie inside the block (needs `1 ≤ L`: row 3 names `v_0`) -/
-lemma blockRow_lt (L : ℕ) (hL : 1 ≤ L) (lo hi : K) (r : ℕ) (hr : r < rowCount L) :
-    ∀ e ∈ blockRow L lo hi r, e.1 < numCols L := by
+lemma blockRow_lt (L : ℕ) (hL : 1 ≤ L) (lo hi elo : K) (r : ℕ) (hr : r < rowCount L) :
+    ∀ e ∈ blockRow L lo hi elo r, e.1 < numCols L := by
   rcases row_cases L r hr with h | ⟨q, s, hq, hs, rfl⟩
   · have hn : 8 < numCols L := by unfold numCols numVars; omega
     interval_cases r <;> simp [blockRow] <;> omega
@@ -150,11 +150,11 @@ lemma block_index (nr R k r : ℕ) (hr : r < R) :
   · rw [h1, Nat.add_mul_mod_self_left, Nat.mod_eq_of_lt hr]
 
 /-- evaluation of row `r` of the block of the `k`-th exponential cone -/
-lemma toSocp_row_block (P : ConeProg K) (L : ℕ) (hL : 1 ≤ L) (lo hi : K) (hx : XOk P) (k : ℕ)
+lemma toSocp_row_block (P : ConeProg K) (L : ℕ) (hL : 1 ≤ L) (lo hi elo : K) (hx : XOk P) (k : ℕ)
     (hk : k < P.xmat.length) (r : ℕ) (hr : r < rowCount L) (x : ℕ → K) :
-    (toSocp P L lo hi).lp.row (P.lp.nr + k * rowCount L + r) x =
+    (toSocp P L lo hi elo).lp.row (P.lp.nr + k * rowCount L + r) x =
       ((leftRow (P.xmat.getD k []) r).map fun e => e.2 * x e.1).sum +
-      ((blockRow L lo hi r).map fun e => e.2 * x (off P L k + e.1)).sum := by
+      ((blockRow L lo hi elo r).map fun e => e.2 * x (off P L k + e.1)).sum := by
   obtain ⟨h1, h2, h3⟩ := block_index P.lp.nr (rowCount L) k r hr
   unfold LinProg.row
   simp only [toSocp, h1, h2, h3, if_false]
@@ -165,45 +165,45 @@ lemma toSocp_row_block (P : ConeProg K) (L : ℕ) (hL : 1 ≤ L) (lo hi : K) (hx
     rcases he with he | ⟨e', he', rfl⟩
     · have := leftRow_lt hx hk r e he
       omega
-    · have := blockRow_lt L hL lo hi r hr e' he'
+    · have := blockRow_lt L hL lo hi elo r hr e' he'
       have h4 : (k + 1) * numCols L ≤ P.xmat.length * numCols L := Nat.mul_le_mul_right _ hk
       simp only [off]
       rw [Nat.add_mul, Nat.one_mul] at h4
       omega
 
-lemma toSocp_eq_block (P : ConeProg K) (L : ℕ) (lo hi : K) (k r : ℕ) (hr : r < rowCount L) :
-    (toSocp P L lo hi).lp.eq (P.lp.nr + k * rowCount L + r) = blockEq r := by
+lemma toSocp_eq_block (P : ConeProg K) (L : ℕ) (lo hi elo : K) (k r : ℕ) (hr : r < rowCount L) :
+    (toSocp P L lo hi elo).lp.eq (P.lp.nr + k * rowCount L + r) = blockEq r := by
   obtain ⟨h1, h2, h3⟩ := block_index P.lp.nr (rowCount L) k r hr
   simp only [toSocp, h1, h3, if_false]
 
-lemma toSocp_b_block (P : ConeProg K) (L : ℕ) (lo hi : K) (k r : ℕ) (hr : r < rowCount L) :
-    (toSocp P L lo hi).lp.b (P.lp.nr + k * rowCount L + r) = 0 := by
+lemma toSocp_b_block (P : ConeProg K) (L : ℕ) (lo hi elo : K) (k r : ℕ) (hr : r < rowCount L) :
+    (toSocp P L lo hi elo).lp.b (P.lp.nr + k * rowCount L + r) = 0 := by
   obtain ⟨h1, h2, h3⟩ := block_index P.lp.nr (rowCount L) k r hr
   simp only [toSocp, h1, if_false]
 
-lemma toSocp_row_lt (P : ConeProg K) (L : ℕ) (lo hi : K) (k r : ℕ) (hk : k < P.xmat.length)
-    (hr : r < rowCount L) : P.lp.nr + k * rowCount L + r < (toSocp P L lo hi).lp.nr := by
+lemma toSocp_row_lt (P : ConeProg K) (L : ℕ) (lo hi elo : K) (k r : ℕ) (hk : k < P.xmat.length)
+    (hr : r < rowCount L) : P.lp.nr + k * rowCount L + r < (toSocp P L lo hi elo).lp.nr := by
   have h4 : (k + 1) * rowCount L ≤ P.xmat.length * rowCount L := Nat.mul_le_mul_right _ hk
   rw [Nat.add_mul, Nat.one_mul] at h4
   simp only [toSocp]
   omega
 
-lemma toSocp_col_lt (P : ConeProg K) (L : ℕ) (lo hi : K) (k c : ℕ) (hk : k < P.xmat.length)
-    (hc : c < numCols L) : off P L k + c < (toSocp P L lo hi).lp.nc := by
+lemma toSocp_col_lt (P : ConeProg K) (L : ℕ) (lo hi elo : K) (k c : ℕ) (hk : k < P.xmat.length)
+    (hc : c < numCols L) : off P L k + c < (toSocp P L lo hi elo).lp.nc := by
   have h4 : (k + 1) * numCols L ≤ P.xmat.length * numCols L := Nat.mul_le_mul_right _ hk
   rw [Nat.add_mul, Nat.one_mul] at h4
   simp only [toSocp, off]
   omega
 
-lemma toSocp_lb_block (P : ConeProg K) (L : ℕ) (lo hi : K) (k c : ℕ) (hc : c < numCols L) :
-    (toSocp P L lo hi).lp.lb (off P L k + c) = blockLb L c := by
+lemma toSocp_lb_block (P : ConeProg K) (L : ℕ) (lo hi elo : K) (k c : ℕ) (hc : c < numCols L) :
+    (toSocp P L lo hi elo).lp.lb (off P L k + c) = blockLb L c := by
   obtain ⟨h1, h2, h3⟩ := block_index P.lp.nc (numCols L) k c hc
   simp only [toSocp, off, h1, h3, if_false]
 
-lemma blockCones_mem (P : ConeProg K) (L : ℕ) (lo hi : K) (k q : ℕ) (hk : k < P.xmat.length)
+lemma blockCones_mem (P : ConeProg K) (L : ℕ) (lo hi elo : K) (k q : ℕ) (hk : k < P.xmat.length)
     (hq : q < 3 + L) :
     [off P L k + numVars L + 3 * q + 2, off P L k + numVars L + 3 * q + 1, off P L k + numVars L + 3 * q]
-      ∈ (toSocp P L lo hi).qmat := by
+      ∈ (toSocp P L lo hi elo).qmat := by
   simp only [toSocp, List.mem_append, List.mem_flatMap, List.mem_range]
   refine Or.inr ⟨k, hk, ?_⟩
   simp only [blockCones, List.mem_map, List.mem_range]
@@ -227,10 +227,11 @@ lemma yRow_sum (L q : ℕ) (y : ℕ → K) : ((yRow L q).map fun e => e.2 * y e.
 /-- The relations one block of `to_socp` imposes, in block-local coordinates
 `y 0 = t, y 1 = x0, y 2 = x1, y 3 = α0, y 4 = α1, y 5 = f, y 6 = g, y 7 = h, y (8+d) = v_d`, and
 `y (numVars L + 3q + s)` the `q`-th cone triple; `a0 a1 a2` are the values of the columns of the
-exponential cone `[i0, i1, i2]` (`a2·exp(a0/a2) ≤ a1`). -/
-structure BlockRel (L : ℕ) (lo hi a0 a1 a2 : K) (y : ℕ → K) : Prop where
-  /-- row 0: `t - x_{i1} ≤ 0` -/
-  epi : y 0 ≤ a1
+exponential cone `[i0, i1, i2]` (`a2·exp(a0/a2) ≤ a1`); `elo` is the coefficient `np.exp(cut_lower)`
+of `α0` in row 0 (`elo = 0`: the block before the repair, see `BlockRelOld` in `Props/C18Upper`). -/
+structure BlockRel (L : ℕ) (lo hi elo a0 a1 a2 : K) (y : ℕ → K) : Prop where
+  /-- row 0: `t + elo·α0 - x_{i1} ≤ 0` (`elo = np.exp(cut_lower)`) -/
+  epi : y 0 + elo * y 3 ≤ a1
   /-- row 1: `x0 + x1 - x_{i0} = 0` -/
   splitx : y 1 + y 2 = a0
   /-- row 2: `α0 + α1 - x_{i2} = 0` -/
@@ -258,23 +259,23 @@ lemma leftRow_ge (xm : List ℕ) (r : ℕ) (h : 3 ≤ r) : (leftRow xm r : List 
   | r + 3, _ => rfl
 
 /-- feasibility of the result gives the block relations for every exponential cone of the source -/
-lemma feas_blockRel (P : ConeProg K) (L : ℕ) (hL : 1 ≤ L) (lo hi : K) (hx : XOk P)
-    (E : K → K → K → Prop) (x : ℕ → K) (hf : (toSocp P L lo hi).Feas E x) (k : ℕ)
+lemma feas_blockRel (P : ConeProg K) (L : ℕ) (hL : 1 ≤ L) (lo hi elo : K) (hx : XOk P)
+    (E : K → K → K → Prop) (x : ℕ → K) (hf : (toSocp P L lo hi elo).Feas E x) (k : ℕ)
     (hk : k < P.xmat.length) :
-    BlockRel L lo hi (x ((P.xmat.getD k []).getD 0 0)) (x ((P.xmat.getD k []).getD 1 0))
+    BlockRel L lo hi elo (x ((P.xmat.getD k []).getD 0 0)) (x ((P.xmat.getD k []).getD 1 0))
       (x ((P.xmat.getD k []).getD 2 0)) (fun c => x (off P L k + c)) := by
   have hR : 16 ≤ rowCount L := by unfold rowCount; omega
   have row : ∀ r, r < rowCount L →
       (if blockEq r then
         ((leftRow (P.xmat.getD k []) r).map fun e => e.2 * x e.1).sum +
-          ((blockRow L lo hi r).map fun e => e.2 * x (off P L k + e.1)).sum = (0 : K)
+          ((blockRow L lo hi elo r).map fun e => e.2 * x (off P L k + e.1)).sum = (0 : K)
        else
         ((leftRow (P.xmat.getD k []) r).map fun e => e.2 * x e.1).sum +
-          ((blockRow L lo hi r).map fun e => e.2 * x (off P L k + e.1)).sum ≤ (0 : K)) := by
+          ((blockRow L lo hi elo r).map fun e => e.2 * x (off P L k + e.1)).sum ≤ (0 : K)) := by
     intro r hr
-    have := hf.lin.rows _ (toSocp_row_lt P L lo hi k r hk hr)
-    rwa [toSocp_eq_block P L lo hi k r hr, toSocp_row_block P L hL lo hi hx k hk r hr,
-      toSocp_b_block P L lo hi k r hr] at this
+    have := hf.lin.rows _ (toSocp_row_lt P L lo hi elo k r hk hr)
+    rwa [toSocp_eq_block P L lo hi elo k r hr, toSocp_row_block P L hL lo hi elo hx k hk r hr,
+      toSocp_b_block P L lo hi elo k r hr] at this
   have h0 := row 0 (by omega)
   have h1 := row 1 (by omega)
   have h2 := row 2 (by omega)
@@ -287,8 +288,8 @@ lemma feas_blockRel (P : ConeProg K) (L : ℕ) (hL : 1 ≤ L) (lo hi : K) (hx : 
     ?_, ?_⟩
   · intro c hc3 hcV
     have hc : c < numCols L := by unfold numCols; omega
-    have := hf.lin.lbs _ (toSocp_col_lt P L lo hi k c hk hc)
-    rw [toSocp_lb_block P L lo hi k c hc] at this
+    have := hf.lin.lbs _ (toSocp_col_lt P L lo hi elo k c hk hc)
+    rw [toSocp_lb_block P L lo hi elo k c hc] at this
     simpa [blockLb, hc3, hcV, LinProg.geLb] using this
   · intro q hq
     have hr0 : 7 + 3 * q < rowCount L := by unfold rowCount; omega
@@ -314,13 +315,13 @@ lemma feas_blockRel (P : ConeProg K) (L : ℕ) (hL : 1 ≤ L) (lo hi : K) (hx : 
     rw [hy] at r1
     simp at r0 r1 r2
     have hc : numVars L + 3 * q + 2 < numCols L := by unfold numCols; omega
-    have hlb := hf.lin.lbs _ (toSocp_col_lt P L lo hi k _ hk hc)
-    rw [toSocp_lb_block P L lo hi k _ hc] at hlb
+    have hlb := hf.lin.lbs _ (toSocp_col_lt P L lo hi elo k _ hk hc)
+    rw [toSocp_lb_block P L lo hi elo k _ hc] at hlb
     have hmod : (numVars L + 3 * q + 2 - numVars L) % 3 = 2 := by omega
     have hnot : ¬ (numVars L + 3 * q + 2 < numVars L) := by omega
     have hle : numVars L ≤ numVars L + 3 * q + 2 := by omega
     simp [blockLb, hnot, hmod, hle, LinProg.geLb] at hlb
-    have hcone := hf.soc _ (blockCones_mem P L lo hi k q hk hq)
+    have hcone := hf.soc _ (blockCones_mem P L lo hi elo k q hk hq)
     simp [socMem] at hcone
     simp only [← Nat.add_assoc] at r0 r1 r2 hlb hcone ⊢
     refine ⟨by linarith, by linarith, by linarith, hlb, ?_⟩
